@@ -583,9 +583,24 @@ pub fn history(src: &mut Src, p: &Profile) -> Case {
     let n = 1 + src.below(p.max_ops);
     let w = p.w.as_vec();
     let (mut c, mut l) = (cols, lines);
+    let mut kind = kind;
     for _ in 0..n {
         if src.exhausted() {
             break;
+        }
+        // now and then the decoding mode is switched in mid-history (round trips included)
+        if src.chance(6) {
+            if kind == 0 {
+                ops.push(Op::SetUtf8(src.chance(128)));
+            } else {
+                let code = *src.pick(&["@", "G", "8", "@", "G", "x"]);
+                ops.push(Op::SelCharset(code.into()));
+                match code {
+                    "@" => kind = 2,
+                    "G" | "8" => kind = 1,
+                    _ => {}
+                }
+            }
         }
         let g = src.weighted(&w);
         if g == 15 {
